@@ -324,6 +324,13 @@ Section Codecs.
     let l2 := if (MAX_RESUMPTION <=? length l1)%nat then tl l1 else l1 in
     l2 ++ [(f, p)].
 
+  (** Fabrics::add_with_post_init: the index after the largest one in use while that is below 254,
+      else the first unused one of 1..254 *)
+  Definition new_index (fabs : list (N * fabric)) : option N :=
+    let mx := nmax (akeys fabs) in
+    if mx <? 254 then Some (mx + 1)
+    else find (fun i => negb (amem fabs i)) (nrange 1 254).
+
   Definition net_add (n : nets) (k : N) : option nets :=
     if existsb (N.eqb k) (n_ids n) then Some (mkNets false (n_ids n))
     else if (MAX_NETS <=? length (n_ids n))%nat then None
@@ -418,9 +425,12 @@ Section Codecs.
             if ctx =? pf then
               if (MAX_FABRICS <=? length (r_fabs r))%nat
               then (mkState r (Armed ctx 1) (s_pase st) (s_kv st), [EAck Refused])
-              else let idx := nmax (akeys (r_fabs r)) + 1 in
-                   (mkState (set_fabs r (aset (r_fabs r) idx (mkFabric nid VENDOR 0 0 0)))
-                            (Armed idx 2) (Some idx) (s_kv st), [EAck Ok])
+              else match new_index (r_fabs r) with
+                   | Some idx =>
+                       (mkState (set_fabs r (aset (r_fabs r) idx (mkFabric nid VENDOR 0 0 0)))
+                                (Armed idx 2) (Some idx) (s_kv st), [EAck Ok])
+                   | None => (mkState r (Armed ctx 1) (s_pase st) (s_kv st), [EAck Refused])
+                   end
             else refuse st
         | _, _ => refuse st
         end
